@@ -421,3 +421,29 @@ def ite_value(g, a, b):
     if ka in ('int', 'bool') and kb in ('int', 'bool') and False:
         pass
     return mk(z3.If(g, to_U(a), to_U(b)), 'U')
+
+
+class AnyVal:
+    """a value about which nothing is known (result of an unmodelled / havocked library call).  Every operation on it yields
+    another AnyVal (or an unconstrained boolean / integer where python needs one) and -- in the faulting variant -- may raise
+    an arbitrary exception instead.  Used to over-approximate *all* behaviours of library calls."""
+
+    def __init__(self, label='any'):
+        self.label = label
+
+    def __repr__(self):
+        return f'<any:{self.label}>'
+
+
+class LockVal:
+    """model of threading.Lock with ghost counters"""
+
+    def __init__(self):
+        self.held = False
+        self.acquires = 0
+        self.releases = 0
+        self.errors = []      # 'acquire while held (would block forever)', 'release of an unlocked lock'
+        self.trace = []
+
+    def __repr__(self):
+        return f'<lock held={self.held} +{self.acquires} -{self.releases} {self.errors}>'
